@@ -1,8 +1,9 @@
 (* C17 — `--strip_uuids` sheets do not depend on the uuids in the flow file.
    Only property theorems here, each closed by [exact] and followed by Print Assumptions.
    The model (Exp/ToRows.v) is written over an abstract uuid type with a boolean equality. *)
+From Coq Require Import String.
 From Coq Require Import List NArith Bool.
-From RPFT Require Import Base.Sexp Base.PyStr Base.Result Gen.Tables Exp.ToRows Exp.ToRowsFacts.
+From RPFT Require Import Base.Sexp Base.PyStr Base.Result Gen.Tables Exp.ToRows Exp.ToRowsFacts Exp.RowIdFacts.
 Import ListNotations.
 
 (* 1. for every injective renaming of the uuids (even into another uuid type), numbered or not,
@@ -24,17 +25,40 @@ Example C17_export_equivariant_nonvacuous :
 Proof. exact demo_flow_exports. Qed.
 Print Assumptions C17_export_equivariant_nonvacuous.
 
-(* 2. the sheet contains no uuid: on flows whose has_group cases occur only in group splits *)
+(* 2. the sheet contains no uuid.  The guard [flow_ok] is decided by the regenerated probe
+   [has_group_case_by_name] (which argument of a has_group case SwitchRouter.get_exit_edge_pairs
+   writes into a condition when the operand is not @contact.groups):
+   - unrepaired tree (probe false): every case that carries a group uuid sits in a group split --
+     a restriction of the inputs; the unrestricted statement is refuted below (finding
+     has_group-case-outside-group-split);
+   - repaired tree (probe true): every case that carries a group uuid is a has_group case -- the
+     invariant [flow_wf] of the representation (only has_group cases have [k_group]; the harness
+     checks it on every encoded flow), i.e. no restriction: the statement is unconditional. *)
 Theorem C17_no_uuid_in_sheet :
   forall (U : Type) (ueqb : U -> U -> bool) (numbered : bool) (nodes : list (node U)),
     flow_ok nodes = true -> export_strip ueqb numbered nodes <> Ok None.
 Proof. exact no_uuid_in_sheet. Qed.
 Print Assumptions C17_no_uuid_in_sheet.
 
-(* ... and the unrestricted statement is false of the faithful model (finding
-   has_group-case-outside-group-split) *)
+Theorem C17_no_uuid_in_sheet_repaired :
+  forall (U : Type) (ueqb : U -> U -> bool) (numbered : bool) (nodes : list (node U)),
+    has_group_case_by_name = true -> flow_wf nodes = true -> export_strip ueqb numbered nodes <> Ok None.
+Proof. exact no_uuid_in_sheet_repaired. Qed.
+Print Assumptions C17_no_uuid_in_sheet_repaired.
+
+(* ... the unrestricted statement on the witness flow (a has_group case [group uuid 77, "my group"]
+   under the operand @input.text): false of the faithful model of an unrepaired tree (finding
+   has_group-case-outside-group-split, reproduced on the code), true of a repaired one *)
+Theorem C17_no_uuid_in_sheet_witness :
+  flow_wf leak_flow = true /\
+  if has_group_case_by_name then export_strip N.eqb false leak_flow <> Ok None
+  else export_strip N.eqb false leak_flow = Ok None.
+Proof. exact no_uuid_in_sheet_witness. Qed.
+Print Assumptions C17_no_uuid_in_sheet_witness.
+
 Theorem C17_no_uuid_in_sheet_refuted :
-  exists nodes : list (node N), export_strip N.eqb false nodes = Ok None.
+  has_group_case_by_name = false ->
+  exists nodes : list (node N), flow_wf nodes = true /\ export_strip N.eqb false nodes = Ok None.
 Proof. exact no_uuid_in_sheet_refuted. Qed.
 Print Assumptions C17_no_uuid_in_sheet_refuted.
 
@@ -45,3 +69,132 @@ Print Assumptions C17_no_uuid_in_sheet_refuted.
 Theorem C17_excluded_cover_partial : header_of_uuid_fields_excluded = true.
 Proof. exact excluded_cover. Qed.
 Print Assumptions C17_excluded_cover_partial.
+
+(* 5. `--numbered`: the row ids are "1", "2", ..., "n" in row order -- every row, go_to rows
+   included, flows of any size -- whenever the export succeeds.  No guard on the flow is needed:
+   the statement holds of the faithful model for every flow (cycles, joins, several back edges
+   from / into one node, equal short names, duplicate node uuids in the node list). *)
+Theorem C17_numbered_ids_are_1_to_n :
+  forall (U : Type) (ueqb : U -> U -> bool), (forall a b, ueqb a b = true <-> a = b) ->
+  forall (nodes : list (node U)) (rows : list (row U str)),
+    to_rows ueqb true nodes = Ok rows ->
+    map r_id rows = map dec_of_nat (seq 1 (length rows)).
+Proof. exact numbered_ids_are_1_to_n. Qed.
+Print Assumptions C17_numbered_ids_are_1_to_n.
+
+(* ... and the same read off the stripped sheet: the row_id column (kept by the regenerated
+   exclusion set) is "1".."n" *)
+Theorem C17_numbered_ids_are_1_to_n_sheet :
+  forall (U : Type) (ueqb : U -> U -> bool), (forall a b, ueqb a b = true <-> a = b) ->
+  forall (nodes : list (node U)) (sheet : list (list (str * upv))),
+    export_strip ueqb true nodes = Ok (Some sheet) ->
+    sheet_col (lit "row_id") sheet = map (fun i => Some (VS (dec_of_nat i))) (seq 1 (length sheet)).
+Proof. exact sheet_numbered_ids. Qed.
+Print Assumptions C17_numbered_ids_are_1_to_n_sheet.
+
+(* decimal printing is what it should be: injective (so "1".."n" are n different names) *)
+Theorem C17_decimal_injective : forall a b : nat, dec_of_nat a = dec_of_nat b -> a = b.
+Proof. exact dec_of_nat_inj. Qed.
+Print Assumptions C17_decimal_injective.
+
+(* a flow with a cycle, a join, two back edges from one node into one node and a second back edge
+   into another node, with two nodes of the same short name *)
+Example C17_numbered_ids_nonvacuous :
+  rmap (map row_skel) (to_rows N.eqb true loops_flow)
+  = Ok [ (lit "1", lit "send_message", [lit "start"], []);
+         (lit "2", lit "wait_for_response", [lit "1"], []);
+         (lit "3", lit "go_to", [lit "2"], [lit "1"]);
+         (lit "4", lit "go_to", [lit "2"], [lit "1"]);
+         (lit "5", lit "send_message", [lit "2"; lit "2"], []);
+         (lit "6", lit "go_to", [lit "5"], [lit "2"]) ].
+Proof. exact loops_flow_numbered. Qed.
+Print Assumptions C17_numbered_ids_nonvacuous.
+
+(* 6. readable (and numbered) ids: pairwise distinct, none is "start", every edge origin is
+   "start" or the id of a row of the sheet, every go_to target is the id of a row of the sheet.
+   For every flow on which the export succeeds. *)
+Theorem C17_readable_ids_unique :
+  forall (U : Type) (ueqb : U -> U -> bool), (forall a b, ueqb a b = true <-> a = b) ->
+  forall (numbered : bool) (nodes : list (node U)) (rows : list (row U str)),
+    to_rows ueqb numbered nodes = Ok rows ->
+    NoDup (map r_id rows) /\ ~ In start_id (map r_id rows) /\ refs_resolve U rows.
+Proof. exact row_ids_unique. Qed.
+Print Assumptions C17_readable_ids_unique.
+
+Theorem C17_readable_ids_unique_sheet :
+  forall (U : Type) (ueqb : U -> U -> bool), (forall a b, ueqb a b = true <-> a = b) ->
+  forall (numbered : bool) (nodes : list (node U)) (sheet : list (list (str * upv))),
+    export_strip ueqb numbered nodes = Ok (Some sheet) ->
+    NoDup (sheet_col (lit "row_id") sheet) /\ ~ In (Some (VS start_id)) (sheet_col (lit "row_id") sheet)
+    /\ ~ In None (sheet_col (lit "row_id") sheet).
+Proof. exact sheet_ids_unique. Qed.
+Print Assumptions C17_readable_ids_unique_sheet.
+
+(* ... references resolve to the RIGHT row: the final rows are the temporary rows of the DFS
+   relabelled by a function that is injective on the ids in use and keeps "start" *)
+Theorem C17_remapping_is_faithful :
+  forall (U : Type) (ueqb : U -> U -> bool), (forall a b, ueqb a b = true <-> a = b) ->
+  forall (numbered : bool) (nodes : list (node U)) (rows : list (row U str)),
+    to_rows ueqb numbered nodes = Ok rows ->
+    exists (tmp : list (row U (tid U))) (f : tid U -> str),
+      to_rows_tmp ueqb nodes = Ok tmp /\ rows = map (relabel U f) tmp /\ f TStart = start_id
+      /\ NoDup (map r_id tmp)
+      /\ (forall a b, In a (TStart :: map r_id tmp) -> In b (TStart :: map r_id tmp) -> f a = f b -> a = b).
+Proof. exact to_rows_faithful. Qed.
+Print Assumptions C17_remapping_is_faithful.
+
+Example C17_readable_ids_nonvacuous :
+  rmap (map row_skel) (to_rows N.eqb false loops_flow)
+  = Ok [ (lit "msg.hello", lit "send_message", [lit "start"], []);
+         (lit "switch.Result", lit "wait_for_response", [lit "msg.hello"], []);
+         (lit "goto.msg.hello", lit "go_to", [lit "switch.Result"], [lit "msg.hello"]);
+         (lit "goto.msg.hello.1", lit "go_to", [lit "switch.Result"], [lit "msg.hello"]);
+         (lit "msg.hello.1", lit "send_message", [lit "switch.Result"; lit "switch.Result"], []);
+         (lit "goto.switch.Result", lit "go_to", [lit "msg.hello.1"], [lit "switch.Result"]) ].
+Proof. exact loops_flow_readable. Qed.
+Print Assumptions C17_readable_ids_nonvacuous.
+
+(* 7. the ids do not mention uuids: the id skeleton of the rows (row id, type, edge origins,
+   go_to targets; a uuid-free type) is the same for a flow and for every injective renaming of it.
+   Not a consequence of 1/2: it holds for EVERY flow, also those on which a uuid reaches some other
+   cell of the sheet (where 1 only says [Ok None = Ok None] and 2 does not apply). *)
+Theorem C17_ids_do_not_mention_uuids :
+  forall (U U' : Type) (ueqb : U -> U -> bool) (ueqb' : U' -> U' -> bool),
+    (forall a b, ueqb a b = true <-> a = b) ->
+    (forall a b, ueqb' a b = true <-> a = b) ->
+    forall sg : U -> U', (forall a b, sg a = sg b -> a = b) ->
+    forall (numbered : bool) (nodes : list (node U)),
+      rmap (map row_skel) (to_rows ueqb' numbered (map (rn_node U U' sg) nodes))
+      = rmap (map row_skel) (to_rows ueqb numbered nodes).
+Proof. exact ids_equivariant. Qed.
+Print Assumptions C17_ids_do_not_mention_uuids.
+
+(* 8. the conclusions above are conditional on "the export succeeds".  The model's own failure
+   modes (out of fuel, internal error) never occur: an error of the model is always [ECrash], i.e.
+   an exception of the Python code (dangling destination, action-less basic node, a kind of action
+   the sheet vocabulary cannot express, ...), and it always comes from the DFS -- once the DFS has
+   produced its rows the remapping of the ids cannot fail (every key is present; the `.counter`
+   loop finds a free name within n+1 steps, by pigeonhole). *)
+Theorem C17_errors_are_crashes :
+  forall (U : Type) (ueqb : U -> U -> bool), (forall a b, ueqb a b = true <-> a = b) ->
+  forall (numbered : bool) (nodes : list (node U)) (e : xerr),
+    to_rows ueqb numbered nodes = Err e -> e = ECrash /\ to_rows_tmp ueqb nodes = Err ECrash.
+Proof. exact to_rows_err. Qed.
+Print Assumptions C17_errors_are_crashes.
+
+Theorem C17_remapping_total :
+  forall (U : Type) (ueqb : U -> U -> bool), (forall a b, ueqb a b = true <-> a = b) ->
+  forall (numbered : bool) (nodes : list (node U)) (tmp : list (row U (tid U))),
+    to_rows_tmp ueqb nodes = Ok tmp -> exists rows, to_rows ueqb numbered nodes = Ok rows.
+Proof. exact remap_total. Qed.
+Print Assumptions C17_remapping_total.
+
+Example C17_errors_are_crashes_nonvacuous :
+  to_rows N.eqb false dangling_flow = Err ECrash /\ to_rows_tmp N.eqb dangling_flow = Err ECrash.
+Proof. exact dangling_flow_crashes. Qed.
+Print Assumptions C17_errors_are_crashes_nonvacuous.
+
+Example C17_remapping_total_nonvacuous :
+  exists tmp, to_rows_tmp N.eqb loops_flow = Ok tmp /\ length tmp = 6%nat.
+Proof. exact loops_flow_tmp. Qed.
+Print Assumptions C17_remapping_total_nonvacuous.
